@@ -266,25 +266,29 @@ type propDef struct {
 	Engine    string
 	Batch     int // sub-runs per worker process (component worlds)
 	Variants  int // >1: every seed is run under this many transport segmentations and the digests are compared (C07)
+	// QuickRuns: the quick tier explores exactly this many seeds (worker processes; times Batch sub-runs, times
+	// Variants), so that the work it reports does not depend on how fast the machine happens to be; QuickSecs
+	// is what that takes on the 16-core sandbox, and four times QuickSecs the wall-clock cap.
+	QuickRuns int
 }
 
 var props = map[string]propDef{
-	"C01": {"C01", "proxy", 40, 600, "W-proxy", 0, 0},
-	"C02": {"C02", "proxy", 40, 600, "W-proxy", 0, 0},
-	"C03": {"C03", "proxy", 40, 600, "W-proxy", 0, 0},
-	"C10": {"C10", "proxy", 40, 600, "W-proxy", 0, 0},
-	"C09": {"C09", "proxy", 40, 600, "W-proxy", 0, 0},
-	"C07": {"C07", "proxy", 40, 600, "W-proxy", 0, 4},
-	"C08": {"C08", "proxy", 40, 600, "W-proxy", 0, 0},
-	"C14": {"C14", "proxy", 40, 600, "W-proxy", 0, 0},
-	"C17": {"C17", "proxy", 40, 600, "W-proxy", 0, 0},
-	"C11": {"C11", "proxy", 40, 600, "W-proxy", 0, 0},
-	"C18": {"C18", "proxy", 40, 600, "W-proxy", 0, 0},
-	"C12": {"C12", "update", 40, 600, "W-update", 0, 0},
-	"C20": {"C20", "update", 40, 600, "W-update", 0, 0},
-	"C05": {"C05", "lb", 30, 600, "W-lb", 200, 0},
-	"C06": {"C06", "lb", 30, 600, "W-lb", 50, 0},
-	"C16": {"C16", "health", 30, 600, "W-health", 100, 0},
+	"C01": {"C01", "proxy", 40, 600, "W-proxy", 0, 0, 9000},
+	"C02": {"C02", "proxy", 40, 600, "W-proxy", 0, 0, 9000},
+	"C03": {"C03", "proxy", 40, 600, "W-proxy", 0, 0, 9000},
+	"C10": {"C10", "proxy", 40, 600, "W-proxy", 0, 0, 9000},
+	"C09": {"C09", "proxy", 40, 600, "W-proxy", 0, 0, 8000},
+	"C07": {"C07", "proxy", 40, 600, "W-proxy", 0, 4, 2000},
+	"C08": {"C08", "proxy", 40, 600, "W-proxy", 0, 0, 7000},
+	"C14": {"C14", "proxy", 40, 600, "W-proxy", 0, 0, 12000},
+	"C17": {"C17", "proxy", 40, 600, "W-proxy", 0, 0, 12000},
+	"C11": {"C11", "proxy", 40, 600, "W-proxy", 0, 0, 6000},
+	"C18": {"C18", "proxy", 40, 600, "W-proxy", 0, 0, 7000},
+	"C12": {"C12", "update", 40, 600, "W-update", 0, 0, 5000},
+	"C20": {"C20", "update", 40, 600, "W-update", 0, 0, 7000},
+	"C05": {"C05", "lb", 30, 600, "W-lb", 200, 0, 1000},
+	"C06": {"C06", "lb", 30, 600, "W-lb", 50, 0, 1400},
+	"C16": {"C16", "health", 30, 600, "W-health", 100, 0, 6000},
 }
 
 // ---- known findings ----
@@ -626,6 +630,11 @@ func cmdCheck(args []string) int {
 	if *tier == "thorough" {
 		budget = pd.ThorSecs
 	}
+	if *tier == "quick" && *secs == 0 && *maxRuns == 0 && pd.QuickRuns > 0 {
+		// a fixed amount of work, whatever the machine: QuickRuns seeds, at most 4 x QuickSecs of wall-clock
+		*maxRuns = pd.QuickRuns
+		budget = 4 * pd.QuickSecs
+	}
 	if *secs > 0 {
 		budget = *secs
 	}
@@ -867,9 +876,13 @@ func writeEvidence(pd propDef, tier string, seed uint64, a *agg, runWall, wall f
 			"TLS, UDP, netpoll mode, connection transfer, wasm, tracing, xDS streaming are outside the world",
 		},
 	}
-	os.MkdirAll(filepath.Join(root, "evidence"), 0o755)
+	evDir := filepath.Join(root, "evidence")
+	if v := os.Getenv("VERIF_EVIDENCE_DIR"); v != "" {
+		evDir = v // (trial runs against a deliberately modified tree must not overwrite the evidence)
+	}
+	os.MkdirAll(evDir, 0o755)
 	b, _ := json.MarshalIndent(ev, "", " ")
-	os.WriteFile(filepath.Join(root, "evidence", pd.ID+".json"), b, 0o644)
+	os.WriteFile(filepath.Join(evDir, pd.ID+".json"), b, 0o644)
 }
 
 // faultsOnly splits injected faults from workload features ("w:" keys).
